@@ -1,5 +1,5 @@
 ID = "C12"
-LEVEL = "other"
+LEVEL = "proof"
 COQ_TARGETS = ["Props/Properties_C12.vo", "Extract/ExtractServer.vo"]
 PROPS_FILES = ["Props/Properties_C12.v"]
 RUNS = [dict(name="server", harness="c12", driver="server", model_ml="server_model", timeout=2400)]
@@ -32,7 +32,8 @@ def classify(run, case, impl, model):
     what = ""
     if mv == "reject":
         what = "/" + "".join(ch for ch in (m[2] if len(m) > 2 else "") if ch.isalpha() or ch == "=")[:12]
-    return "history/impl=%s/viol=%s/model=%s%s" % (iv, viol, mv, what)
+    kind = "selfpipe" if ":self" in case.split("|")[0] else "history"
+    return "%s/impl=%s/viol=%s/model=%s%s" % (kind, iv, viol, mv, what)
 
 
 def violates(run, case, impl, model):
@@ -47,13 +48,17 @@ def violates(run, case, impl, model):
     return False
 
 
-LEVEL_TEXT = ("Proof (all schedules, all MaxConcurrentCalls/queue sizes/call sets) on the small-step model: the set of calls "
-              "holding a slot never exceeds MaxConcurrentCalls; at most one call is started-and-unacknowledged and a new "
-              "implementation starts only then (gate); user Shutdown runs at most once, only when no call holds a slot, "
-              "cancels running calls, and nothing starts after Shutdown began; a direct call completes exactly once. "
-              "NOT proved: exactly-once for pipelined calls, queue_order, no_stuck - these are checked on the "
-              "implementation's event logs by the correspondence run only.")
-LEVEL_NOTE = ("level other: queue_order / no_stuck / pipelined exactly-once have no theorem yet (docs/C12.md). Trusted: Coq "
-              "kernel, extraction, the hand-written model, the trace acceptor, the synctest harness.")
+LEVEL_TEXT = ("Proof (all schedules, all MaxConcurrentCalls >= 1 / queue sizes / call sets / caller orders) on the small-step "
+              "model: calls holding a slot never exceed MaxConcurrentCalls; gate (at most one started-and-unacknowledged call; "
+              "a later call of the same caller is entered only after the earlier ones returned, implementations are seen in "
+              "issue order); every call - direct or pipelined - completes at most once and exactly once from its completing "
+              "step on; calls queued on a pending answer are processed in queue order, all of them once it returns, delivered "
+              "or failed with the answer's error, pass-through calls only after the queue; user Shutdown runs at most once, "
+              "only when no call holds a slot, cancels running calls, nothing starts after Shutdown began; deadlock freedom "
+              "(a library step is enabled or the application holds the ball) and per-thread termination measures.")
+LEVEL_NOTE = ("Trusted: Coq kernel, extraction, the hand-written model, the trace acceptor, the synctest harness. Known finding: "
+              "self-pipelining deadlock (result contains the server's own capability) - outside the model's assumption that "
+              "pipelined calls are delivered to capabilities other than the server. Partial: termination measure of the gate "
+              "wait loop in start (C12_start_measure_partial).")
 TECHNIQUE = "Coq proof over a small-step concurrent model (all interleavings) + trace acceptance of synctest histories by the extracted model"
 DESIGN_REF = "DESIGN.md section 6, C12"
